@@ -1,8 +1,8 @@
 package checks
 
 import (
-	"errors"
 	"bytes"
+	"errors"
 	"fmt"
 	"math/big"
 	"math/rand"
